@@ -113,18 +113,32 @@ func buildFile(us []*unit, withCalls bool) (string, []span) {
 	return b.String(), spans
 }
 
-// verdicts decides accepted/rejected for every unit: batches are checked, failures are attributed
-// to units by line; a batch with a failure outside every unit is split.
+// verdicts decides accepted/rejected for every unit. Units predicted to be rejected are checked one
+// per file; the others in batches: a batch without failures accepts all its units; otherwise the
+// failures are attributed to units by line, those units are rejected and the REST IS CHECKED AGAIN
+// (the checker reports only the first failing macro expansion of a file, so the absence of a
+// diagnostic in a failing file proves nothing).
 func verdicts(c *core.Ctx, pool *core.Pool, units []*unit, batch int) error {
 	var batches [][]*unit
-	for i := 0; i < len(units); i += batch {
-		j := i + batch
-		if j > len(units) {
-			j = len(units)
+	var cur []*unit
+	for _, u := range units {
+		if predicted(u) != "ok" {
+			batches = append(batches, []*unit{u})
+			continue
 		}
-		batches = append(batches, units[i:j])
+		cur = append(cur, u)
+		if len(cur) == batch {
+			batches = append(batches, cur)
+			cur = nil
+		}
 	}
-	for round := 0; len(batches) > 0 && round < 3; round++ {
+	if len(cur) > 0 {
+		batches = append(batches, cur)
+	}
+	for round := 0; len(batches) > 0; round++ {
+		if round > 60 {
+			return core.Inconclusivef("verdict attribution does not converge")
+		}
 		var jobs []core.Job
 		var spans [][]span
 		for _, b := range batches {
@@ -134,6 +148,11 @@ func verdicts(c *core.Ctx, pool *core.Pool, units []*unit, batch int) error {
 		}
 		results := pool.Map(jobs, nil)
 		var next [][]*unit
+		split := func(b []*unit) {
+			for _, u := range b {
+				next = append(next, []*unit{u})
+			}
+		}
 		for bi, jr := range results {
 			b := batches[bi]
 			var r checkResult
@@ -159,44 +178,46 @@ func verdicts(c *core.Ctx, pool *core.Pool, units []*unit, batch int) error {
 				if len(b) == 1 {
 					b[0].crash = crash
 				} else {
-					for _, u := range b {
-						next = append(next, []*unit{u})
-					}
+					split(b)
 				}
 				continue
 			}
-			stray := false
-			hit := make([]string, len(b))
-			for _, f := range r.Failures {
-				found := false
-				for i, sp := range spans[bi] {
-					if f.Line >= sp.from && f.Line <= sp.to {
-						found = true
-						if hit[i] == "" {
-							hit[i] = f.Msg
-						}
-					}
-				}
-				if !found {
-					stray = true
-				}
-			}
-			if stray && len(b) > 1 {
+			if len(r.Failures) == 0 {
 				for _, u := range b {
-					next = append(next, []*unit{u})
-				}
-				continue
-			}
-			for i, u := range b {
-				if hit[i] != "" || (stray && len(b) == 1) {
-					u.verdict = "rejected"
-					u.diag = hit[i]
-					if u.diag == "" && len(r.Failures) > 0 {
-						u.diag = r.Failures[0].Msg
-					}
-				} else {
 					u.verdict = "ok"
 				}
+				continue
+			}
+			if len(b) == 1 {
+				b[0].verdict = "rejected"
+				b[0].diag = r.Failures[0].Msg
+				continue
+			}
+			hit := make([]string, len(b))
+			nHit := 0
+			for _, f := range r.Failures {
+				for i, sp := range spans[bi] {
+					if f.Line >= sp.from && f.Line <= sp.to && hit[i] == "" {
+						hit[i] = f.Msg
+						nHit++
+					}
+				}
+			}
+			if nHit == 0 {
+				split(b)
+				continue
+			}
+			var rest []*unit
+			for i, u := range b {
+				if hit[i] != "" {
+					u.verdict = "rejected"
+					u.diag = hit[i]
+				} else {
+					rest = append(rest, u)
+				}
+			}
+			if len(rest) > 0 {
+				next = append(next, rest)
 			}
 		}
 		batches = next
@@ -271,6 +292,9 @@ func runAccepted(c *core.Ctx, pool *core.Pool, units []*unit, batch int) error {
 			}
 			clean := crash == "" && r.Accepted && r.ErrClass == "" && len(per) == len(b)
 			if !clean && len(b) > 1 {
+				if len(next) == 0 {
+					c.Logf("batch split: crash=%q accepted=%v err=%s %s markers=%d/%d diags=%s", firstLine(crash), r.Accepted, r.ErrClass, r.ErrMsg, len(per), len(b), firstLine(r.Diags))
+				}
 				for _, u := range b {
 					next = append(next, []*unit{u})
 				}
@@ -452,6 +476,32 @@ func run(c *core.Ctx) error {
 		c.Cov("reference_only_programs", len(small))
 	}
 
+	// quick tier: programs that both machines reject (an undefined local in the expansion or at the
+	// probe) need one checker run each; replay a seeded sample of them, all of them in the thorough tier
+	if !c.Thorough() {
+		var rej []int
+		for i, p := range progs {
+			if p.Ref.Verdict == "rejected" && p.Impl.Verdict == "rejected" {
+				rej = append(rej, i)
+			}
+		}
+		drop := map[int]bool{}
+		for _, i := range rej {
+			drop[i] = true
+		}
+		for _, k := range c.SampleIdx(len(rej), 700) {
+			delete(drop, rej[k])
+		}
+		var kept []*Prog
+		for i, p := range progs {
+			if !drop[i] {
+				kept = append(kept, p)
+			}
+		}
+		c.Cov("rejected_programs_not_replayed", len(drop))
+		progs = kept
+	}
+
 	// ---- real runs: the macro program always; the hand-written renamed expansion when the reference accepts
 	var units []*unit
 	byProg := map[int][2]*unit{}
@@ -573,12 +623,18 @@ func run(c *core.Ctx) error {
 		implSame := mu.verdict == p.Impl.Verdict && (mu.verdict != "ok" || same(mu.out, outStrings(p.Impl.Out)))
 		fired := append([]string{}, p.Impl.Fired...)
 		sort.Strings(fired)
+		var exact []string
+		for _, f := range fired {
+			if f != "unhygienic_statement_stack_imbalance" {
+				exact = append(exact, f)
+			}
+		}
 		switch {
+		case implSame && len(exact) > 0:
+			r["deviation"] = exact[0]
 		case p.Impl.Corrupt && contains(fired, "unhygienic_statement_stack_imbalance"):
 			// the model does not predict WHICH local is lost, only that the run is corrupted
 			r["deviation"] = "unhygienic_statement_stack_imbalance"
-		case implSame && len(fired) > 0:
-			r["deviation"] = fired[0]
 		}
 		r["deviations_fired"] = fired
 		c.Violation(r)
